@@ -99,6 +99,8 @@ pub fn limit_to_e57(l: &LimitVal) -> RecordValue {
         LimitVal::SI(i) => RecordValue::ScaledInteger(*i),
         LimitVal::S(f) => RecordValue::Single(f.0),
         LimitVal::D(f) => RecordValue::Double(f.0),
+        // the API has no limit value with units of its own: the real number it stands for
+        LimitVal::SX { raw, scale, offset } => RecordValue::Double(*raw as f64 * scale.0 + offset.0),
     }
 }
 pub fn limit_from_e57(l: &RecordValue) -> LimitVal {
